@@ -18,6 +18,9 @@ READY = True
 LEAN_TARGETS = ["NauyacaVerif.Props.C16"]
 THEOREMS = [f"NauyacaVerif.C16.{t}" for t in
             ("redirect_bound", "redirect_scheme", "redirect_no_fake_final", "redirect_follows", "no_follow_single")]
+LEAN_TARGETS = LEAN_TARGETS + ["NauyacaVerif.Props.Tr.FollowRedirects"]
+TRANSLATED = ["followRedirects"]
+THEOREMS = THEOREMS + [f"NauyacaVerif.Translated.{t}" for t in ("followRedirects_eq", "tr_bound", "tr_scheme", "tr_no_fake_final", "getTr_fuel")]
 EXTRACT = ["maxRedirects"]
 ASSUMPTIONS = [
     "a 'connection' is a call of GeminiClient._get_single (the only place that opens a transport); the pin check of every hop is inside _get_single and is covered by C03/C11",
